@@ -44,7 +44,7 @@ HOOK_EVENTS = ["sth", "part", "closef", "fwait", "mwait", "range", "fetch", "enq
 
 def model_check(ctx):
     q = ctx.quick
-    base = dict(CAPF=1000, CAPJ=100000)
+    base = dict(CAPF=1000, CAPJ=100000, LEGACY="FALSE")
     runs = [
         # fetchers 2, matchers 2, log 4, batch 2, <= 2 faults, cert/precert
         dict(STARTS="{0}", SIZES="{4}", MAXIDXS="{0}", BATCHES="{2}", NFS="{2}", NMS="{2}", KPS="{3}", FAULTS=2),
@@ -55,7 +55,7 @@ def model_check(ctx):
                          FAULTS=1))
     else:
         runs += [
-            dict(STARTS="{0,1,2}", SIZES="{0,1,4,5}", MAXIDXS="{0,3}", BATCHES="{1,2,3}", NFS="{1,2}", NMS="{1,2}",
+            dict(STARTS="{0,1}", SIZES="{0,4,5}", MAXIDXS="{0,3}", BATCHES="{1,2,3}", NFS="{1,2}", NMS="{1,2}",
                  KPS="{3,4}", FAULTS=2),
             dict(STARTS="{0}", SIZES="{5}", MAXIDXS="{0}", BATCHES="{2}", NFS="{3}", NMS="{2}", KPS="{4}", FAULTS=2),
             dict(STARTS="{1}", SIZES="{6}", MAXIDXS="{0}", BATCHES="{2}", NFS="{2}", NMS="{3}", KPS="{4}", FAULTS=2),
@@ -81,36 +81,46 @@ def model_check(ctx):
     live = dict(base, STARTS="{0}", SIZES="{3}", MAXIDXS="{0}", BATCHES="{2}", NFS="{2}", NMS="{2}", KPS="{3}",
                 FAULTS=100)
     if not q:
-        live.update(SIZES="{4}", STARTS="{0,1}", NMS="{1,2}", BATCHES="{1,2}")
+        live.update(SIZES="{4}", BATCHES="{1,2}")
     r = ctx.tlc("CTScannerImpl", "CTScanner_live.cfg", subst=live, timeout=3000, expect_ok=False,
                 label="CTScannerImpl termination")
     if r.violated:
         ctx.note("B-model: termination violated (%s) - prediction only" % r.violated)
     elif r.rc != 0:
         raise Machinery("TLC failed on CTScannerImpl liveness:\n" + r.out[-2000:])
-    # predictions about the counter discipline
-    pred = dict(base, STARTS="{0}", SIZES="{4}", MAXIDXS="{0}", BATCHES="{2}", NFS="{2}", NMS="{2}", KPS="{2}", FAULTS=0)
-    preds = ["NoSplitRace", "NoTickerRace"] + ([] if q else ["CounterExact"])
-    found = []
-    for inv in preds:
-        s = dict(pred, INVS=inv)
-        r = ctx.tlc("CTScannerImpl", "CTScanner_mc.cfg", subst=s, timeout=3000, expect_ok=False,
-                    label="CTScannerImpl prediction " + inv, count=False)
-        if r.violated:
-            found.append(inv)
-        elif r.rc != 0:
-            raise Machinery("TLC failed on prediction %s:\n%s" % (inv, r.out[-1500:]))
-    ctx.cov["model_predictions"] = {"violated_in_model": found, "checked": preds}
-    if found:
-        ctx.note("model predicts a breach of the counter discipline (%s): split ++ on counters shared by the "
-                 "matchers / plain read of certsProcessed by the ticker; judged on the real code by the race "
-                 "detector runs" % ", ".join(found))
+    # counter discipline of the current code (atomic adds / loads since 4fe80e7): must hold in the model
+    pred = dict(base, STARTS="{0}", SIZES="{4}", MAXIDXS="{0}", BATCHES="{2}", NFS="{2}", NMS="{2}", KPS="{2}", FAULTS=0,
+                INVS="NoSplitRace NoTickerRace CounterExact")
+    r = ctx.tlc("CTScannerImpl", "CTScanner_mc.cfg", subst=pred, timeout=3000, expect_ok=False,
+                label="CTScannerImpl counter discipline")
+    if r.violated:
+        ctx.note("model predicts a breach of the counter discipline (%s); judged on the real code by the race "
+                 "detector runs" % r.violated)
+    elif r.rc != 0:
+        raise Machinery("TLC failed on the counter discipline:\n" + r.out[-1500:])
+    ctx.cov["model_predictions"] = {"counter_discipline_violated_in_model": r.violated}
+    if not q:
+        # regression sentinel for the model itself: with the pre-4fe80e7 discipline TLC must find the lost update
+        # and both races (that prediction was confirmed by the race detector before the fix)
+        found = []
+        for inv in ["NoSplitRace", "NoTickerRace", "CounterExact"]:
+            s = dict(pred, INVS=inv, LEGACY="TRUE")
+            r = ctx.tlc("CTScannerImpl", "CTScanner_mc.cfg", subst=s, timeout=3000, expect_ok=False,
+                        label="CTScannerImpl legacy discipline " + inv, count=False)
+            if r.violated:
+                found.append(inv)
+            elif r.rc != 0:
+                raise Machinery("TLC failed on legacy prediction %s:\n%s" % (inv, r.out[-1500:]))
+        if len(found) != 3:
+            raise Machinery("the model no longer finds the split-increment defects (found only %s)" % found)
+        ctx.cov["model_predictions"]["legacy_discipline_violations_found"] = found
 
 
 def simulate(ctx, n_per_worker, workers):
     """Random behaviours of the B model (server answers, enqueue order, completion order)."""
     sub = dict(STARTS="{0,1,3}", SIZES="{1,4,6,9}", MAXIDXS="{0,3}", BATCHES="{1,2,3,5}", NFS="{1,2,3}",
-               NMS="{1,2,3}", KPS="{1,2,3,4}", FAULTS=4, CAPF=1000, CAPJ=100000, HISTKINDS='{"ans", "enq", "proc"}')
+               NMS="{1,2,3}", KPS="{1,2,3,4}", FAULTS=4, CAPF=1000, CAPJ=100000, LEGACY="FALSE",
+               HISTKINDS='{"ans", "enq", "proc"}')
     r = ctx.tlc("CTScannerImpl", "CTScanner_sim.cfg", subst=sub, simulate="num=%d" % n_per_worker, depth=600,
                 workers=workers, timeout=1500, label="CTScannerImpl simulate")
     return behaviours(ctx, r, 0)
@@ -123,8 +133,8 @@ def server_scripts(ctx):
     if ctx.quick:
         sub = dict(STARTS="{0}", SIZES="{3}", MAXIDXS="{0}", BATCHES="{2}", NFS="{2}", NMS="{1}", KPS="{3}", FAULTS=1)
     else:
-        sub = dict(STARTS="{1}", SIZES="{6}", MAXIDXS="{0}", BATCHES="{2,3}", NFS="{2}", NMS="{1}", KPS="{4}", FAULTS=2)
-    sub.update(CAPF=1000, CAPJ=100000, HISTKINDS='{"ans"}')
+        sub = dict(STARTS="{1}", SIZES="{5}", MAXIDXS="{0}", BATCHES="{2,3}", NFS="{2}", NMS="{1}", KPS="{4}", FAULTS=2)
+    sub.update(CAPF=1000, CAPJ=100000, LEGACY="FALSE", HISTKINDS='{"ans"}')
     r = ctx.tlc("CTScannerImpl", "CTScanner_sim.cfg", subst=sub, timeout=3000, label="CTScannerImpl all server scripts")
     return behaviours(ctx, r, 500000)
 
